@@ -27,6 +27,10 @@ def build_factory(cfg):
         if cfg.get("ties"):
             # pairs of trials report exactly the same values (ties at a promotion cut are legal inputs)
             tab = [tab[(t // 2) * 2] for t in range(8)]
+        if cfg.get("cross"):
+            # learning curves that cross after the first level: the ranking at level 1 is the reverse of the ranking above
+            # (PASHA raises its resource cap only when rankings of its two top rungs disagree)
+            tab = [[row[0]] + [sign * 1.0 - v for v in row[1:]] for row in tab]
         spec = ScriptSpec(tab, R_job, max_resource_attr=info["mra"], checkpointing=True, extra=extra)
         make = make_scripted_local_backend if cfg.get("files") else ScriptedBackend
         backend = make(chooser, spec, cfg["W"], profile=cfg["profile"], log=log, late_results=False,
@@ -41,7 +45,7 @@ def build_factory(cfg):
 
 def ctx_of(cfg):
     return (f"{cfg['kind']}{'+spec' if cfg.get('speculative') else ''}/W{cfg['W']}/{'del' if cfg['delete'] else 'keep'}"
-            + ("" if cfg.get("mra", True) else "/nomra") + ("/ties" if cfg.get("ties") else "") + ("/files" if cfg.get("files") else ""))
+            + ("" if cfg.get("mra", True) else "/nomra") + ("/ties" if cfg.get("ties") else "") + ("/cross" if cfg.get("cross") else "") + ("/files" if cfg.get("files") else ""))
 
 
 def label(cfg):
@@ -94,6 +98,15 @@ def configs(tier, seed):
                                 mra=(kind == "pbt") or W == 2, ties=False, k=1 if tier == "quick" else 2,
                                 stop={"max_num_trials_started": 10}, wait=True, pop=3, loop_cap=400,
                                 max_exec=100 if tier == "quick" else 2000))
+    # PASHA with crossing learning curves: the resource cap grows during the run, trials that waited at the old cap are
+    # promoted beyond it later on
+    for W in (1, 2):
+        for mra in (True, False):
+            for prof in (tunerx.PROFILES[0], tunerx.PROFILES[5]):
+                out.append(dict(kind="hb-pasha", speculative=False, W=W, R=8, mode="min" if mra else "max", seed=seed, profile=prof,
+                                delete=True, mra=mra, ties=False, cross=True, k=1 if tier == "quick" else 2,
+                                stop={"max_num_trials_started": 8}, wait=True, pop=2, loop_cap=400,
+                                max_exec=80 if tier == "quick" else 1500))
     # the same through LocalBackend's real shutil checkpoint copy / delete and marker files
     n = len(out)
     for i in range(0, n, 5 if tier == "quick" else 3):
